@@ -80,6 +80,11 @@ theorem C12_plain (sp : Speech) (stem rd : Str)
 euphonic variant (っ ん い). Whole table, kernel-evaluated. -/
 theorem C12_row : rowCheck conjTable = true := by decide +kernel
 
+/-- (b') … at full strength: the head is in the verb's own row or is a euphonic variant **of that class and row**
+(い for カ/ガ行五段, っ for タ/ラ/ワ行五段, ん for ナ/バ/マ行五段, nothing anywhere else), and the one stem-dependent
+arm is カ行五段's, which takes っ after a stem reading in い (行く). -/
+theorem C12_row_strict : rowCheckStrict conjTable = true := by decide +kernel
+
 /-- (c) The core forms of each conjugation class are present in every branch of every row. -/
 theorem C12_core : coreCheck conjTable = true := by decide +kernel
 
